@@ -326,7 +326,9 @@ def truthPinnedS (i : FInput) (o : OutputF) (r : FRec) : Bool :=
 
 def truthPinnedL (i : FInput) (l : List (Nat × Nat)) (r : FRec) : Bool :=
   lookup l r.cid != some stPinned ||
-    (r.expectedHere i.self && !anyListFault i && (match r.modeAns with | some s => pinnedType s | none => false))
+    (r.expectedHere i.self && !i.stateErr && !i.listErr &&
+     !(match r.pin with | some p => if p.depth == 0 then i.lsDErr else i.lsRErr | none => true) &&
+     (match r.modeAns with | some s => pinnedType s | none => false))
 
 def faultReported (i : FInput) (o : OutputF) (r : FRec) : Bool :=
   r.hasOpEntry ||
